@@ -16,6 +16,7 @@ from simaple.simulate.component.trait.impl import (
     PeriodicElapseTrait,
     UseSimpleAttackTrait,
 )
+from simaple.simulate.component.util import ignore_rejected
 from simaple.simulate.component.view import Running, Validity
 from simaple.simulate.global_property import Dynamics
 
@@ -416,12 +417,14 @@ class FlareSlash(SkillComponent, UseSimpleAttackTrait):
         return self.elapse_simple_attack(time, state)
 
     @reducer_method
+    @ignore_rejected
     def change_stance_trigger(self, _: None, state: FlareSlashState):
         state = state.deepcopy()
         state.cooldown.reduce_by_value(self.cooldown_reduece_when_stance_changed)
         return self.use_simple_attack(state)
 
     @reducer_method
+    @ignore_rejected
     def styx_trigger(self, _: None, state: FlareSlashState):
         state = state.deepcopy()
         state.cooldown.reduce_by_value(self.cooldown_reduce_when_cross_the_styx_hit)
